@@ -83,6 +83,11 @@ func (s *Service) SignedBeaconBlock(ctx context.Context,
 				return
 			}
 			s.clientMonitor.ClientOperation(name, "signed beacon block", err == nil, time.Since(started))
+			if response == nil || response.Data == nil {
+				log.Debug().Dur("elapsed", time.Since(started)).Msg("Obtained nil signed beacon block")
+
+				return
+			}
 			log.Trace().Str("provider", name).Dur("elapsed", time.Since(started)).Msg("Obtained signed beacon block")
 
 			ch <- &signedBeaconBlockResp{
